@@ -1,7 +1,8 @@
 """C10: aggregation conserves inputs.
 
 spec/agg/Aggregation.tla   keyed accumulators (three key functions side by side = tee branches), flush,
-                           merge-on-drop guards; property layer = Expected(log) defined declaratively from the
+                           merge-on-drop guards; inputs carry a value and a small bag of observations of their
+                           own (a closed histogram replayed into the aggregate's histogram); property layer = Expected(log) defined declaratively from the
                            history (Conserved, HeldIsTail, ExactlyOne, DistinctKeys); TLC: every history
 spec/agg/AggReplay.tla     behaviour generators (exhaustive histories + walks) with the expected batch per flush
 spec/agg/WorkerAbs.tla     property layer of the worker sink (sends, merges, flushes/emits, flush barrier, exit)
@@ -182,12 +183,13 @@ def run(prop, tier):
         "TLC results are exhaustive only within the constants of the MC_*.cfg files",
     ]
     vlib.cargo_build(["agg"])
-    r = vlib.model_check(SPECD, "Aggregation", "MC_agg_quick.cfg" if tier == "quick" else "MC_agg.cfg", timeout=3600)
-    chk.add_model("Aggregation", r)
-    r = vlib.model_check(SPECD, "Worker", "MC_worker.cfg" if tier == "quick" else "MC_worker_big.cfg", timeout=3600)
-    chk.add_model("Worker", r)
-    r = vlib.model_check(SPECD, "Worker", "MC_worker_live.cfg", timeout=3600)
-    chk.add_model("Worker/live", r)
+    if not getattr(vlib, "SKIP_MC", False):   # VERIF_SKIP_MC: self-test only (the models do not depend on the code)
+        r = vlib.model_check(SPECD, "Aggregation", "MC_agg_quick.cfg" if tier == "quick" else "MC_agg.cfg", timeout=3600)
+        chk.add_model("Aggregation", r)
+        r = vlib.model_check(SPECD, "Worker", "MC_worker.cfg" if tier == "quick" else "MC_worker_big.cfg", timeout=3600)
+        chk.add_model("Worker", r)
+        r = vlib.model_check(SPECD, "Worker", "MC_worker_live.cfg", timeout=3600)
+        chk.add_model("Worker/live", r)
     run_R(chk, prop, tier)
     rng = random.Random(chk.seed * 7919 + 10)
     run_T(chk, prop, gen_scen(rng, 30 if tier == "quick" else 600))
